@@ -69,7 +69,11 @@ TRUSTED = [
 ASSUMPTIONS = [
     "unforgeability of ECDSA / BIP340 and collision resistance of SHA-256: `tampering is rejected` is proved as "
     "`the message handed to signature verification changes` (T2); that a changed message makes verification fail is assumed",
-    "Btc.EC.ops secp256k1 is Lawful (property C01) is a named hypothesis of T1",
+    "the `closure_*_signed` theorems are stated over an abstract `Lawful` group (hypothesis `L`); the `*_secp256k1` "
+    "theorems are the same statements on the executed instance `secpCrypto` (Btc.EC.ops secp256k1) with NO group "
+    "hypothesis (C02-T1 / C03-T1 on that arithmetic come from the C01 capstone). Hypotheses every closure keeps: the key "
+    "octets read back as q*G, hash160 / sha256 commitments, Core's checkSignatureEncoding of the DER bytes, FindAndDelete "
+    "side conditions of the legacy templates (`hsc` for bare / p2sh multisig), the C12 commitment check on the script path",
 ]
 
 NUMS = "50929b74c1a04954b78b4b6035e97a5e078a5a0f28ec96d547bfee9ace803ac0"
